@@ -292,6 +292,12 @@ def initChains (r : NRule) : List Chain :=
   if r.cons.isEmpty then [{ id := r.id, name := [], cons := [], sign := sign }]
   else r.cons.map (fun cs => { id := r.id, name := [], cons := cs, sign := sign })
 
+/-- `if rule.id.id not in self.rep_rules: self.rep_rules[rule.id.id] = cur_chains else: ... += cur_chains` -/
+def repAdd (rep : PyDict String (List Chain)) (id : String) (cur : List Chain) : PyDict String (List Chain) :=
+  match PyDict.get? rep id with
+  | none => PyDict.set rep id cur
+  | some old => PyDict.set rep id (old ++ cur)
+
 /-- the loop of `_replicate_rules` over the (sorted) rules -/
 def replicateLoop : List NRule → PyDict String (List Chain) → Int → Except CErr (PyDict String (List Chain))
   | [], rep, _ => .ok rep
@@ -299,10 +305,7 @@ def replicateLoop : List NRule → PyDict String (List Chain) → Int → Except
     match expandName r.id rep r.name (initChains r) nt with
     | .error e => .error e
     | .ok (cur, nt') =>
-      replicateLoop rs
-        (match PyDict.get? rep r.id with
-          | none => PyDict.set rep r.id cur
-          | some old => PyDict.set rep r.id (old ++ cur)) nt'
+      replicateLoop rs (repAdd rep r.id cur) nt'
 
 /-- `min([int(c.id) ...] + [0]) - 1` -/
 def firstFreshTemp (rules : List NRule) : Int :=
@@ -343,6 +346,23 @@ def pmove (rc : Chain) (tag : Int) (prev : List Int) : List Constraint × String
   else
     let cs := rc.cons.filter (fun t => t.pat.contains tag)
     (cs.map encTerm, toString tag ++ ":" ++ String.join (cs.map termStr))
+
+/-- `pmove` depends on `prev_tags` only through "is the tag already in it" -/
+def pmoveB (rc : Chain) (tag : Int) (inPrev : Bool) : List Constraint × String :=
+  if inPrev then ([], toString tag ++ ":")
+  else
+    let cs := rc.cons.filter (fun t => t.pat.contains tag)
+    (cs.map encTerm, toString tag ++ ":" ++ String.join (cs.map termStr))
+
+/-- a computable test that the merge key determines tag and constraints on these chains (the hypothesis
+    `KeyInj` of the node-merging theorem; the drivers report it for every compiled schema) -/
+def keyInjB (chains : List Chain) : Bool :=
+  chains.all fun rc₁ => chains.all fun rc₂ => rc₁.tags.all fun t₁ => rc₂.tags.all fun t₂ =>
+    [true, false].all fun b₁ => [true, false].all fun b₂ =>
+      if t₁ = t₂ ∧ b₁ ≠ b₂ then true
+      else if (pmoveB rc₁ t₁ b₁).2 == (pmoveB rc₂ t₂ b₂).2 then
+        decide (t₁ = t₂) && (pmoveB rc₁ t₁ b₁).1 == (pmoveB rc₂ t₂ b₂).1
+      else true
 
 /-- one edge to generate: a value edge (`value = some v`) or a pattern edge (`tag`, `cons`), the chains that
     follow it and the `previous_tags` of the child -/
